@@ -46,6 +46,10 @@ type Prop struct {
 
 var registry = map[string]*Prop{}
 
+// Subcommands are extra entry points of the binary (child processes of
+// process-level checks).
+var Subcommands = map[string]func(args []string){}
+
 func Register(p *Prop) { registry[p.ID] = p }
 func Lookup(id string) *Prop {
 	return registry[strings.ToUpper(id)]
